@@ -40,6 +40,7 @@ import (
 	sonicbytes "github.com/talostrading/sonic/bytes"
 	"github.com/talostrading/sonic/codec/websocket"
 	"github.com/talostrading/sonic/multicast"
+	"github.com/talostrading/sonic/sonicerrors"
 	"github.com/talostrading/sonic/sonicopts"
 	"golang.org/x/sys/unix"
 )
@@ -1345,7 +1346,7 @@ func fdsDirect(seed uint64, tier string, args []string, w *bufio.Writer) {
 	}
 
 	// 6. garbage collection with operations deferred: the registry keeps the owner alive, the completion arrives
-	for _, kind := range []string{"conn-read", "conn-write", "conn-both", "accepted-read", "adapter-read", "adapter-both", "packet-read", "listener-accept"} {
+	for _, kind := range []string{"conn-read", "conn-write", "conn-both", "accepted-read", "adapter-read", "adapter-both", "packet-read", "listener-accept", "listener-accept-stolen", "listener-accept-stolen", "listener-accept-stolen"} {
 		kind := kind
 		d.trial("gc."+kind, "drop all references with "+kind+" deferred, collect, complete", func() {
 			fdsGcTrial(d, ioc, kind, r)
@@ -1587,7 +1588,7 @@ func fdsGcStart(ioc *sonic.IO, kind string, completed *int, finalized *bool, pay
 		})
 		ioc.Dispatched = 0
 		return fd, &net.UDPAddr{IP: net.IPv4(127, 0, 0, 1), Port: in4.Port}, nil
-	case "listener-accept":
+	case "listener-accept", "listener-accept-stolen":
 		l, err := sonic.Listen(ioc, "tcp", "127.0.0.1:0", sonicopts.Nonblocking(true))
 		if err != nil {
 			return -1, nil, err
@@ -1599,15 +1600,38 @@ func fdsGcStart(ioc *sonic.IO, kind string, completed *int, finalized *bool, pay
 			l.Close()
 			return -1, nil, fmt.Errorf("no address")
 		}
-		l.AsyncAccept(func(err error, c sonic.Conn) {
+		addr := &net.TCPAddr{IP: net.IPv4(127, 0, 0, 1), Port: in4.Port}
+		var cb func(err error, c sonic.Conn)
+		cb = func(err error, c sonic.Conn) {
 			sent.n++
+			if kind == "listener-accept-stolen" && err == sonicerrors.ErrWouldBlock {
+				l.AsyncAccept(cb) // woken with nothing to accept: the application asks again
+				return
+			}
 			if err == nil && c != nil {
 				*completed++
 				c.Close()
 			}
 			l.Close()
-		})
-		return fd, &net.TCPAddr{IP: net.IPv4(127, 0, 0, 1), Port: in4.Port}, nil
+		}
+		l.AsyncAccept(cb)
+		if kind == "listener-accept-stolen" {
+			// the queued connection is taken by a handler dispatched earlier in the same poll batch (blocking twin), so the
+			// listener's own event finds the queue empty; whatever the library then does with the accept (complete it with
+			// ErrWouldBlock, as here re-issued by the application, or keep waiting) the listener has an accept in flight
+			_ = ioc.Post(func() {
+				if c, err := l.Accept(); err == nil && c != nil {
+					c.Close()
+				}
+			})
+			cl, err := net.DialTCP("tcp", nil, addr)
+			if err == nil {
+				time.Sleep(2 * time.Millisecond)
+				_, _ = ioc.PollOne()
+				cl.Close()
+			}
+		}
+		return fd, addr, nil
 	}
 	return -1, nil, fmt.Errorf("unknown gc kind")
 }
@@ -1842,6 +1866,12 @@ func fdsGcTrial(d *fdsDirectState, ioc *sonic.IO, kind string, r *rng) {
 	}
 	if !ioc.VerifRegistered(fd) && completed < want {
 		d.fail("gc.unregistered-in-flight", "%s: descriptor %d has an operation in flight but the IO registry does not hold its slot", kind, fd)
+		// without the registry the collector may free the object the kernel still points to: stop here
+		_ = syscall.Close(fd)
+		if c, ok := peer.(io.Closer); ok {
+			c.Close()
+		}
+		return
 	}
 	if finalized {
 		d.fail("gc.collected-in-flight", "%s: state captured by the pending callback was finalised while the operation was in flight", kind)
